@@ -390,9 +390,12 @@ MANIFEST = dict(
     text='coq/Props/C19.v (closed under the global context): for EVERY well-shaped table - any numbers of inputs, outputs, annotations, rules, any texts, with/without output label and allowed values - '
          'recognize_horizontal (layout_h t) = fields_of t (C19_plane_roundtrip_h); with the marker / rule-number column the whole plane of a rules-as-rows drawing is read back including orientation, hit policy and rule count '
          '(C19_plane_roundtrip_rows, abstract text parsers); pivot is an involution on rectangular planes and a rules-as-columns plane normalises to the same plane (C19_pivot_involutive, C19_columns_normalise); '
-         'every recognised shape passes builder.rs size validation (C19_size_validation_complete). Marker / rule-number detection for rules-as-columns is proved for the bounded shapes only (_partial, finite sweep). '
+         'every recognised shape passes builder.rs size validation (C19_size_validation_complete). The whole plane of a rules-as-columns drawing (pivoted plane + marker / rule-number line below) is read back too - orientation, '
+         'bottom-left hit-policy marker, rule numbers after the double line, every field - for EVERY table and any text parsers (C19_plane_roundtrip_columns, coq/C19/Columns.v; lemmas on the cells of a pivoted plane: C19_pivot_cells, '
+         'C19_pivot_first_line_and_column) under two boolean hypotheses: first_input_not_marker (the first input expression is not a marker text) and first_output_not_number (the top-left text of the output block is not a number); '
+         'C19_columns_hypotheses_needed shows by computation that without them the plane is rejected (Err, same as the code), not misread. '
          'Every run DRAWS >= 800 tables (both orientations, all combinations of information item name / values / label / annotations, random widths, alignments, multi-line and merged cells) and requires every recognised field to equal the drawn text block, '
          'the built plane to equal the model layout, orientation / rule count / fields to equal the model recognition, and the evaluation to equal that of the equivalent DMN XML; about 5k single-character corruptions and 6k arbitrary/mangled texts must return Ok or Err.',
     category='proof',
-    note='PARTIAL: the character grid -> plane step (canvas.rs: region flood fill, double-line crossings) is not modelled, it is sampled by the drawings; rules-as-columns marker/rule-number detection only bounded '
-         '(needs: first input expression is not a marker text, first output name is not a number). One panic of the pinned commit was repaired (fix: non-rectangular plane).')
+    note='PARTIAL: the character grid -> plane step (canvas.rs: region flood fill, double-line crossings) is not modelled, it is sampled by the drawings; a rules-as-columns drawing whose first input expression is itself a marker text (U, A, P, F, R, O, C, C+ ...) or whose first output label/name is a number other than 1 '
+         'is rejected with an error by the code and by the model (hypotheses of C19_plane_roundtrip_columns). One panic of the pinned commit was repaired (fix: non-rectangular plane).')
